@@ -211,9 +211,11 @@ def main(argv=None):
     # refuted obligations: confirm natively where the property module links a native check
     link = getattr(mod, 'NATIVE', {})
     groups = {}
+    known_refuted = 0
     for o in refuted:
         e = match_known('obligation', o['id'])
         if e is not None:
+            known_refuted += 1
             if e not in known_matched:
                 known_matched.append(e)
                 lines.append(f"KNOWN-FINDING: property={prop} {e['what']}")
@@ -280,7 +282,8 @@ def main(argv=None):
     ev = {
         'property_id': prop, 'tier': tier, 'seed': seed, 'level': level,
         'coverage': {
-            'obligations': n_ob, 'discharged': len(discharged),
+            'obligations': n_ob - known_refuted, 'discharged': len(discharged),
+            'obligations_total': n_ob, 'refuted_listed_as_known_findings': known_refuted,
             'refuted': len(refuted), 'undecided': len(undecided),
             'checker_cmd': f'./check {prop} --tier {tier}   (python3-vt -m pyvc.run; z3-solver 5.1.0 python API with '
                            f'rlimit, unknowns re-tried with /usr/bin/cvc5 and /usr/bin/z3)',
